@@ -3,7 +3,7 @@ a scratch worktree of /repo (under /tmp/wavesim-mut, removed afterwards) and run
 the quick checks against it via WAVESIM_REPO.  Writes out/sensitivity.json and
 prints a table.   Usage: python tools/sens.py [--runs N] [id ...]"""
 import json, os, shutil, subprocess, sys, time
-V = "/verif"
+V = os.path.dirname(os.path.dirname(os.path.abspath(__file__)))   # the checkout this script lives in (a `vp run` snapshot works too)
 ROOT = "/tmp/wavesim-mut"
 args = sys.argv[1:]
 runs = None
